@@ -595,6 +595,14 @@ class Eval(object):
                 raise Unsupported('%s with explicit rounding/SAE' % name)
             nm = 'x86.f' + name.split('.')[3]
             E[iid] = lanewise(lambda x, y: T.raw_op(nm, T.width(x), x, y), ops[0], ops[1])
+        elif re.match(r'^llvm\.x86\.avx512\.mask\.cvttps2u?dq\.(128|256|512)$', name):
+            # VCVTTPS2DQ / VCVTTPS2UDQ (truncating float -> int32 / uint32) with write mask, current rounding ignored (truncation)
+            if len(ops) > 3 and T.const_val(self.val(ops[3])) != 4:
+                raise Unsupported('%s with SAE' % name)
+            nm = 'x86.cvttps2udq' if 'udq' in name else 'x86.cvttps2dq'
+            src, pas, mk = self.val(ops[0]), self.val(ops[1]), self.val(ops[2])
+            n = T.width(src) // 32
+            E[iid] = T.cat(*[T.sel(T.slice_(mk, i, 1), T.raw_op(nm, 32, T.slice_(src, i * 32, 32)), T.slice_(pas, i * 32, 32)) for i in range(n)])
         elif re.match(r'^llvm\.x86\.avx512\.mask\.rndscale\.p[sd]\.(128|256|512)$', name):
             # VRNDSCALE with scale 0 (imm[7:4] = 0) is ROUNDPS/PD with imm[3:0]; write-masked
             imm = T.const_val(self.val(ops[1]))
